@@ -175,7 +175,9 @@ func c01Random(r *rand.Rand, tier string) c01issCase {
 		cs.Class, spelling = "spelling-different-locks", true
 		names = []string{c01nmUni, c01nmPuny, "BÜCHER.example", c01nmPuny}
 	}
-	seedKinds := []string{"", "", "", "fresh", "fresh", "due", "due", "due", "keyonly", "nokey", "nometa", "mismatch", "aridue", "aridue"}
+	// ("aridue" bundles and issuers without metadata are in the corpus only: with faults inside a save or under
+	// load their random histories were not reproducible from the script, see DESIGN 11.5)
+	seedKinds := []string{"", "", "", "fresh", "fresh", "due", "due", "due", "keyonly", "nokey", "nometa", "mismatch"}
 	sk := seedKinds[r.Intn(len(seedKinds))]
 	if spelling {
 		sk = []string{"", "", "due"}[r.Intn(3)]
@@ -211,7 +213,6 @@ func c01Random(r *rand.Rand, tier string) c01issCase {
 		}
 		t.Reuse = r.Intn(4) == 0
 		t.NoChk = r.Intn(3) == 0
-		t.NilMeta = r.Intn(3) == 0
 		t.Decliner = !t.Async && r.Intn(8) == 0 // no faults of its own are injected into such an instance (hook)
 		t.IssDue = r.Intn(8) == 0
 		cs.Threads = append(cs.Threads, t)
